@@ -13,8 +13,8 @@ esac
 HASH=$( (cd "$REPO" && find src include external -type f \( -name '*.cpp' -o -name '*.hpp' -o -name '*.h' \) -print0 | sort -z | xargs -0 sha1sum; echo "$FLAVOR $CXXFLAGS GDSTK_VERIF") | sha1sum | cut -c1-16)
 OUT="$VERIF/build/lib-$FLAVOR-$HASH"
 if [ -f "$OUT/libgdstk.a" ]; then echo "$OUT"; exit 0; fi
-# prune old caches of this flavor (keep 2 most recent)
-ls -dt "$VERIF"/build/lib-$FLAVOR-* 2>/dev/null | tail -n +3 | xargs -r rm -rf
+# prune old caches of this flavor (keep 12 most recent)
+ls -dt "$VERIF"/build/lib-$FLAVOR-* 2>/dev/null | tail -n +13 | xargs -r rm -rf
 TMP="$OUT.tmp.$$"
 rm -rf "$TMP"; mkdir -p "$TMP"
 SRCS=$(ls "$REPO"/src/*.cpp "$REPO"/external/clipper/clipper.cpp)
@@ -29,5 +29,5 @@ for p in "${pids[@]}"; do wait $p || fail=1; done
 if [ $fail -ne 0 ]; then cat "$TMP"/*.err >&2; rm -rf "$TMP"; echo "BUILD FAILED" >&2; exit 3; fi
 ar rcs "$TMP/libgdstk.a" "$TMP"/*.o
 rm -f "$TMP"/*.o "$TMP"/*.err
-mv "$TMP" "$OUT"
+if [ -d "$OUT" ]; then rm -rf "$TMP"; else mv "$TMP" "$OUT"; fi
 echo "$OUT"
